@@ -746,9 +746,13 @@ def gen_cascade(rng, n_min=2, n_max=4, partition_p=0.5):
     einsum_meta = []
     extents = {}
     produced = []   # (name, ranks)
+    earlier_inputs = []   # (name, ranks) of user-supplied tensors read by earlier Einsums
     for i in range(n):
         # ranks of this Einsum
         reuse = [p for p in produced if rng.random() < (0.8 if p is produced[-1] else 0.3)] if produced else []
+        # an input read again by a later Einsum (both Einsums may then need the same swizzled / partitioned copy)
+        if earlier_inputs and rng.random() < 0.35:
+            reuse = reuse + [rng.choice(earlier_inputs)]
         base = []
         for _, rs in reuse:
             for r in rs:
@@ -790,6 +794,8 @@ def gen_cascade(rng, n_min=2, n_max=4, partition_p=0.5):
                 rs = _perm(rng, rs)
                 decl[name] = rs
                 facs.append((name, rs))
+                if rs:
+                    earlier_inputs.append((name, rs))
             rng.shuffle(facs)
             terms.append(" * ".join(nm + _access(rs) for nm, rs in facs))
         out = out_names[i]
